@@ -67,10 +67,14 @@ def _ops(draw):
     times = [0.0, 1.0, -2.0, 0.5, 7.25]
     ops = []
     for _ in range(nops):
-        kind = draw(st.sampled_from(["jac", "jac", "jac", "jac", "hook", "unhook", "assign", "order", "call", "other_jac", "other_jac"]))
+        kind = draw(st.sampled_from(["jac", "jac", "jac", "jac", "hook", "unhook", "assign", "order", "call", "other_jac", "other_jac", "raw_attach"]))
+        if kind == "raw_attach" and (own or any(o[0] == "raw_attach" for o in ops)):
+            kind = "jac"        # (at most once per history, and only on a function that has no Jacobian of its own)
         if kind in ("jac", "call", "other_jac"):
             ops.append([kind, draw(st.sampled_from(times)), draw(PR.state(shape))])
-        elif kind in ("hook", "assign"):
+        elif kind in ("hook", "assign", "raw_attach"):
+            # raw_attach: `f.jac = analytic` set on the user's OWN function object after the wrapper exists (and possibly after it
+            # has already differentiated numerically): "attached by attribute"
             ops.append([kind, draw(st.integers(0, 2))])
         elif kind == "order":
             ops.append([kind, draw(st.integers(2, 7))])
@@ -228,6 +232,8 @@ def _check_wrapper(case):
     # what it is asked must not leak into the answers of the first
     w2 = DiffRHS(target) if any(o[0] == "other_jac" for o in case["ops"]) else None
     model_user = "own" if case["own_jac"] else None
+    base_user = model_user      # what is in force when nothing is hooked / assigned
+    hooked = False
     viols = []
     times = set()
     hooks = 0
@@ -275,7 +281,8 @@ def _check_wrapper(case):
                 times.add(op[1])
                 nlog = len(log)
                 J2 = np.asarray(w2.jac(t, y))
-                want2 = np.asarray(f.jac(t, y)) * (10.0 if case["own_jac"] else 1.0)
+                # (the second wrapper has nothing hooked: it answers with whatever Jacobian the function itself carries)
+                want2 = np.asarray(f.jac(t, y)) * (10.0 if case["own_jac"] else (1.0 + base_user if base_user is not None else 1.0))
                 err2 = float(np.max(np.abs(J2.reshape(want2.shape) - want2))) if J2.size == want2.size else float("inf")
                 if not err2 <= 1e-6 * (float(np.max(np.abs(want2))) + float(np.max(np.abs(f(t, y)))) + 1e-3):
                     viols.append(V("wrapper_value", "a second wrapper around the same function, asked at t={}, is off by {:.3e}{}".format(op[1], err2, hist), "fd:value:second", **attrs))
@@ -288,14 +295,23 @@ def _check_wrapper(case):
             elif kind == "hook":
                 w.hook_jacobian_call(users[op[1]])
                 model_user = op[1]
+                hooked = True
                 hooks += 1
             elif kind == "assign":
                 w.jac = users[op[1]]
                 model_user = op[1]
+                hooked = True
                 hooks += 1
             elif kind == "unhook":
                 w.unhook_jacobian_call()
-                model_user = "own" if case["own_jac"] else None
+                model_user = base_user
+                hooked = False
+                hooks += 1
+            elif kind == "raw_attach":
+                target.jac = users[op[1]]
+                base_user = op[1]
+                if not hooked:
+                    model_user = op[1]
                 hooks += 1
             elif kind == "order":
                 w.set_jac_base_order(op[1])
